@@ -6,10 +6,10 @@ PROPS = {
     "C18": dict(
         level="exploration",
         technique="property-based testing (rapid): generated pods x PodNetworkings x namespaces x cluster configurations through the real admission entry points over controller-runtime's fake client; returned RFC 6902 patch applied by an independent implementation (evanphx/json-patch; the webhook builds patches with gomodules.xyz/jsonpatch); result checked sentence by sentence against the statement with harness-side selector evaluation and vSwitch-zone ground truth; the emitted required node affinity is evaluated with scheduler semantics (terms ORed, match expressions ANDed) over the zone universe; each emitted entry's allocation type is compared with the source it stands for (requested or bound PodNetworking definition, or the pod's own pod-networks entry), and the fixed-IP refusal is judged on what the pod asks for, not on the emitted list",
-        rule="one case = one cluster (trunk, IPAM type, resource injection, eni-config, 1-3 namespaces, 0-5 PodNetworkings admitted through the real PodNetworking hooks, optional PodENI left by an earlier incarnation of the pod: with/without allocations, being deleted or not, zone inside or outside the current vSwitch zones) and one pod (host network, ignore label, 0-3 containers, owners, labels, the three network annotations alone/in conflict/malformed, 0-4 networks with interface names of 0-8 characters, 0-12 security groups, allocation types (pod-networks-request lists of 1-3 definitions whose allocation types may differ), pre-existing affinity and device requests); non-trivial = the pod is marked pod-eni=true, or denied for a reason other than malformed annotation JSON; distinct = distinct scenario hash",
+        rule="one case = one cluster (trunk, IPAM type, resource injection, eni-config whose default security groups are the union of the security_groups list (1-5, or 9-11 at the ten-group boundary) and an optional legacy security_group that is or is not among them, 1-3 namespaces, 0-5 PodNetworkings admitted through the real PodNetworking hooks, optional PodENI left by an earlier incarnation of the pod: with/without allocations, being deleted or not, zone inside or outside the current vSwitch zones) and one pod (host network, ignore label, 0-3 containers, owners, labels, the three network annotations alone/in conflict/malformed, 0-4 networks with interface names of 0-8 characters, 0-12 security groups, allocation types (pod-networks-request lists of 1-3 definitions whose allocation types may differ), pre-existing affinity and device requests); non-trivial = the pod is marked pod-eni=true, or denied for a reason other than malformed annotation JSON; distinct = distinct scenario hash",
         assumptions=[
             "PodNetworkings in the cluster are those the real mutating+validating PodNetworking handlers admit; their status lists every vSwitch of the spec with its true zone",
-            "the eni-config ConfigMap, when present, names at least one vSwitch and one security group",
+            "the eni-config ConfigMap, when present, names at least one vSwitch and one security group (its effective default list has 1-12 groups; more than ten must be refused, not emitted)",
             "custom stateful workload kinds (a process-wide list that can only grow) are not exercised: stable name = no owner or a StatefulSet owner",
         ],
         level_text="the real handlers are executed on generated inputs and every response is applied and checked against an oracle that restates the property; exploration of a bounded input space, not proof",
